@@ -1,16 +1,3 @@
 HOOK_COMMITS = []
 STD = "Trusted: Lean 4.33 kernel, axioms ⊆ {propext, Classical.choice, Quot.sound} (audited each run, no native_decide/bv_decide/sorry); the hand-written model and its correspondence harness; "
 CHECKS = {
- "C14": {
-  "text": "Theorems over all operation histories (List Op, unbounded): registry invariant (ids strictly increasing, type map = per-type projection, no id reused) preserved by create/delete/configure/reset/set-state; all queries equal the specification on the live population. The model is tied to the code by a probe (agent_count_per_state by id) whose outcome selects the obligation (C14_full via C14_full_of_good, or the kernel-checked negation witness), and by a correspondence run (all histories to length 4/6 over a 9-letter alphabet + random histories to length 40) comparing every query after every operation.",
-  "note": STD + "agent factories produce agents of the registered type; random_agents (uses the random module) is not modelled.",
-  "technique": "Lean 4 invariant proof by induction over operation lists + differential correspondence of the executable model"},
-}
-CHECKS["C02"] = {
-  "text": "Theorem render_parses (A1): for EVERY operator table satisfying the decidable side condition tableOK and EVERY expression tree over it (structural induction, no depth bound) the emitted Python text parses, under CPython's binding powers, to the tree with each operand plugged in whole; C02_full adds: its value in any arithmetic (carrier-generic eval with uninterpreted operations) equals the operator applied to the operands' values, and each operator of the C02 vocabulary has its intended shape (specOK). The operator table is regenerated from /repo on every run by probing every operator class's real term() with placeholder operands; the per-run obligations tableOK/specOK/vocabOK are discharged by decide +kernel. Correspondence on generated trees (all outer-op × position × inner-op pairs, random to depth 5): real term text = model render, Lean parser = CPython ast.parse, denote = parse; reference check: real value = ordinary Python arithmetic on the tree.",
-  "note": STD + "the A1 grammar (binding powers transcribed from the CPython reference grammar; differentially validated against ast.parse every run); CPython's eval is compositional on the parsed tree; lexer/probe in harness/pyfrag.py; operands limited to element references, number literals and operator terms (level >= 6); stochastic/statistical functions outside the C02 vocabulary are probed and reported (extended table) but do not decide.",
-  "technique": "Lean 4 structural-induction proof of a print/parse round trip for templates (Pratt parser relation) + per-run decide obligations on the probed operator table + differential correspondence"}
-import glob, json, os
-for _f in sorted(glob.glob(os.path.join(os.path.dirname(os.path.dirname(os.path.abspath(__file__))), "notes", "manifest", "C*.json"))):
-    CHECKS[os.path.basename(_f)[:-5]] = json.load(open(_f))
-NOT_APPLICABLE = {}
